@@ -20,6 +20,14 @@ SEEDS = [
 EXTRA_INPUTS = ["1 * 2 + 3\n", "1 + 2 * 3 + 4\n", "1 * 2 * 3\n", "B C ; A C ; A\n", "B C ; A\n", "D A K ; A\n", "+ x\n", "+ x y\n",
                 "- 1\n", "+ 1 2\n", "x x x x\n", "1 + 2 + 3 + 4\n"]
 KF_VERBOSE = {"grammar": "start: NAME r NEWLINE\nr: invalid_z\ninvalid_z: 'zz'\n", "input": "a b\n"}
+# error mode: a result cached while a *_without_invalid rule had switched error mode off is reused after it is back on
+KF_ERRMODE = {"grammar": "start: a_without_invalid 'z' NEWLINE | b NEWLINE\na_without_invalid: x 'q'\nb: x 'w'\n"
+                         "x: invalid_x | NAME\ninvalid_x: n=NAME { foo(n) }\n", "input": "k w\n"}
+ERRMODE_SEEDS = [
+    "start: a 'z' NEWLINE | b NEWLINE\na: x 'q'\nb: x 'w'\nx: invalid_x | NAME\ninvalid_x: n=NAME { foo(n) }\n",
+    "start: x NUMBER NEWLINE | x NAME NEWLINE\nx: invalid_x | NAME\ninvalid_x: NAME NAME NAME { 'three' }\n",
+    "start: (invalid_s | NAME)+ NEWLINE | NAME* NUMBER NEWLINE\ninvalid_s: NAME '+' { 'plus' }\n",
+]
 
 
 def observable(x):
@@ -70,7 +78,35 @@ def run(chk: common.Check, tier: str):
         runs = res["results"][0]["runs"]
         if runs["q1"].get("fetched") != runs["v1"].get("fetched"):
             for kf in kfs:
-                chk.known(kf["what"])
+                if kf.get("id") == "C04-verbose-showpeek":
+                    chk.known(kf["what"])
+    # ---- error mode on: cache on/off must agree as well (grammars without *_without_invalid rules) ...
+    kn2 = gramgen.Knobs(terminals=("NAME", "NUMBER", "'+'", "','", "NEWLINE"), invalid=True, rules=(2, 4),
+                        action_pool=("[x, y]", "'lit'", "foo(x)", "foo()"))
+    etexts = ERRMODE_SEEDS + [t for t in gramgen.gen_grammars(r, kn2, 25 if tier == "quick" else 300) if "without_invalid" not in t]
+    epairs = rm.krun(chk, "C04", etexts, lambda t: A.inputs_upto(A.alphabet(t), ln, nin), configs=("q1", "q0"), call_invalid=True)
+    for t, rj in epairs:
+        for one in rj["results"]:
+            runs = one["runs"]
+            if any(x["kind"] in ("timeout", "skipped", "memory", "recursion") for x in runs.values()):
+                continue
+            chk.count()
+            a, b = observable(runs["q1"]), observable(runs["q0"])
+            if a[:3] != b[:3]:
+                chk.violation("in error mode the outcome / value / tokens consumed differs between cache on and cache off",
+                              {"grammar": t, "tokens": one["tokens"], "cached": a, "uncached": b, "error_mode": True}, True)
+    # ... and the recorded finding: a *_without_invalid rule in between
+    res = rm.run_traced([{"grammar": KF_ERRMODE["grammar"], "inputs": [KF_ERRMODE["input"]], "configs": ["q1", "q0"],
+                          "call_invalid": True}])[0]
+    if "results" in res:
+        runs = res["results"][0]["runs"]
+        if observable(runs["q1"])[:3] != observable(runs["q0"])[:3]:
+            hit = [kf for kf in kfs if kf.get("id") == "C04-cache-spans-without-invalid"]
+            if hit:
+                chk.known(hit[0]["what"])
+            else:
+                chk.violation("in error mode a result cached inside a *_without_invalid rule is replayed outside it: cache on "
+                              "and cache off differ", {"grammar": KF_ERRMODE["grammar"], "input": KF_ERRMODE["input"]}, True)
     chk.assumptions += ["'cache off' = memoize replaced by the identity for ordinary rules and primitives; the seed-growing "
                         "wrapper of left-recursive leaders is kept (it is not a cache of ordinary rules)"]
 
